@@ -74,7 +74,7 @@ KeyboardInterrupt, outranks every other exception of the run) -/
 def failureClass (o : Outcome) : Bool := o == .failure || o == .error
 
 /-- a mismatch recorded by `expectThat` makes the test fail once it has finished — in whatever stage the
-expectation was recorded (`setUp` included: `AssertIn.place`) and whatever else the test goes on to do (return,
+expectation was recorded (`setUp` included, before or after its upcall to the base `setUp`: `AssertIn.place`) and whatever else the test goes on to do (return,
 skip, expected failure, unexpected success, failure, error, interrupt; in the rest of that stage, `tearDown` or a
 cleanup): never success / skip / expected failure / unexpected success.  In particular an expectation that failed
 in `setUp` is not forgotten when `setUp` then gives up with a skip or an expected failure (the test method and
